@@ -4,6 +4,8 @@ from typing import TYPE_CHECKING
 
 import numpy as np
 
+from funtracks.exceptions import InvalidActionError
+
 from ..actions._base import ActionGroup
 from ..actions.update_segmentation import UpdateNodeSeg
 from .user_add_node import UserAddNode
@@ -80,16 +82,22 @@ class UserUpdateSegmentation(ActionGroup):
                     time_key: time,
                     tracklet_key: current_track_id,
                 }
-                self.actions.append(
-                    UserAddNode(
-                        tracks,
-                        new_value,
-                        attributes=attrs,
-                        pixels=all_pixels,
-                        force=force,
-                        _top_level=False,
+                try:
+                    self.actions.append(
+                        UserAddNode(
+                            tracks,
+                            new_value,
+                            attributes=attrs,
+                            pixels=all_pixels,
+                            force=force,
+                            _top_level=False,
+                        )
                     )
-                )
+                except (InvalidActionError, ValueError):
+                    # the new node was refused: restore the nodes that were deleted
+                    # or shrunk above
+                    self._rollback()
+                    raise
                 node_to_select = new_value
 
         self.tracks.action_history.add_new_action(self)
